@@ -4,6 +4,7 @@ import (
 	"fmt"
 	"go/token"
 	"go/types"
+	"os"
 	"strings"
 
 	"golang.org/x/tools/go/ssa"
@@ -14,7 +15,7 @@ func init() {
 		ID:          "C04",
 		Explanation: "(R4.1) auxiliary relaxation variables never leak: on every path of every Interface.Optimal wrapper outside package solver, a result obtained from the inner solver leaves the method (return or send) only after its Model was cut at the first relaxation variable, unless its status was tested not to be Sat; (R4.2) in maxsat.New, on every path on which a constraint is soft, the blocking literal is appended and gets a coefficient equal to the constraint's degree (implicit unit coefficients are only kept when the degree is 1); (R4.3) Problem.Solve inserts a binding into the returned model only for named variables.",
 		NotDecided:  "minimality of the reported cost, the WCNF top-weight semantics on concrete values, and variable renumbering.",
-		Rules:       []ruleFn{ruleR4_1, ruleR4_2, ruleR4_3, ruleR4_4, ruleR4_5, ruleR4_6, ruleR13_8, ruleR13_6, ruleR3_5, ruleR9_4, ruleR9_5, ruleR9_6, ruleR2_9, ruleR9_7, ruleR20_1_2},
+		Rules:       []ruleFn{ruleR4_1, ruleR4_2, ruleR4_3, ruleR4_4, ruleR4_5, ruleR4_6, ruleR4_7, ruleR13_8, ruleR13_6, ruleR3_5, ruleR9_4, ruleR9_5, ruleR9_6, ruleR2_9, ruleR9_7, ruleR20_1_2},
 	})
 }
 
@@ -42,18 +43,11 @@ func (ta *trimAnalysis) run(fn *ssa.Function, helper bool) (viol map[string]stri
 			if !isResultType(x.Type()) {
 				return false
 			}
-			// a helper of the same package that receives a Result: raw unless it always returns it trimmed
+			// a helper outside package solver (one that receives a Result, or one that runs the inner solver itself,
+			// `return s.forwardOptimal(results, stop)`): raw unless everything it returns and sends is trimmed
 			for _, c := range w.Callees[x] {
-				if w.PkgName(c) != "solver" {
-					takes := false
-					for _, p := range c.Params {
-						if isResultType(p.Type()) {
-							takes = true
-						}
-					}
-					if takes && ta.summary(c) == 1 {
-						return false
-					}
+				if w.PkgName(c) != "solver" && len(c.Blocks) > 0 && ta.summary(c) == 1 {
+					return false
 				}
 			}
 			return true
@@ -96,6 +90,10 @@ func (ta *trimAnalysis) run(fn *ssa.Function, helper bool) (viol map[string]stri
 			switch a := x.Addr.(type) {
 			case *ssa.Alloc:
 				if !isResultType(x.Val.Type()) {
+					return
+				}
+				// `*res = *res` (a named result returned by name): nothing changes
+				if u, ok := st.resolve(x.Val).(*ssa.UnOp); ok && u.Op == token.MUL && u.X == ssa.Value(a) {
 					return
 				}
 				st.forget(chainOf(a) + ".")
@@ -162,6 +160,9 @@ func (ta *trimAnalysis) summary(c *ssa.Function) int {
 	}
 	ta.helpers[c] = 2 // recursion guard: pessimistic
 	viol, _, _, trunc := ta.run(c, true)
+	if os.Getenv("GSVERIF_DEBUG") != "" {
+		fmt.Fprintln(os.Stderr, "trim summary", c, viol, trunc)
+	}
 	if len(viol) == 0 && !trunc {
 		ta.helpers[c] = 1
 	}
